@@ -99,6 +99,10 @@ MoveFamily == {"add", "_add", "transpose", "copy", "copy_row", "submatrix", "con
 RowOpsOK(ev) ==
   LET op == ev.op  A == Pre(O(ev, 1))  res == Post(O(ev, 1))  p == ev.p IN
   CASE op = "row_swap" -> Eq(res, RowSwapSem(A, p.a, p.b))
+    \* _mzd_row_swap: the two rows exchange their entries from column 64 * sb on
+    [] op = "_row_swap" -> Eq(res, Mat(A.m, A.n, [i \in Rows(A) |->
+                                  IF p.a = p.b \/ i \notin {p.a, p.b} THEN A.r[i]
+                                  ELSE LET o == IF i = p.a THEN p.b ELSE p.a IN {c \in A.r[i] : c < 64 * p.sb} \cup {c \in A.r[o] : c >= 64 * p.sb}]))
     [] op = "col_swap" -> Eq(res, ColSwapSem(A, p.a, p.b))
     [] op = "col_swap_in_rows" -> Eq(res, ColSwapInRowsSem(A, p.a, p.b, p.r0, p.r1))
     [] op = "row_add" -> Eq(res, RowAddSem(A, p.src, p.dst))
@@ -118,7 +122,7 @@ RowOpsOK(ev) ==
     [] op = "apply_p_right_trans_tri" -> Eq(res, ApplyPRightTransTriSem(A, p.P))
     [] op = "apply_p_right_capped" -> Eq(res, IF p.sr >= A.m THEN A ELSE Embed(A, p.sr, 0, ApplyPRightSem(Sub(A, p.sr, 0, A.m - p.sr, A.n), p.P)))
     [] op = "apply_p_right_trans_capped" -> Eq(res, IF p.sr >= A.m THEN A ELSE Embed(A, p.sr, 0, ApplyPRightTransSem(Sub(A, p.sr, 0, A.m - p.sr, A.n), p.P)))
-RowOpsFamily == {"row_swap", "col_swap", "col_swap_in_rows", "row_add", "row_add_offset",
+RowOpsFamily == {"row_swap", "_row_swap", "col_swap", "col_swap_in_rows", "row_add", "row_add_offset",
                  "row_clear_offset", "xor_bits", "and_bits", "clear_bits", "read_bits", "read_bits_int",
                  "write_bit", "read_bit", "combine", "apply_p_left", "apply_p_left_trans",
                  "apply_p_right", "apply_p_right_trans", "apply_p_right_trans_tri",
@@ -161,7 +165,7 @@ SeqEq(s, f(_), n) == Len(s) = n /\ \A j \in 1 .. n : s[j] = f(j - 1)
 TableRowOK(M, T, L, r, c, k, x) ==
   LET want == XorRows({r + j : j \in BitsOfInt(x, k)}, M.r) IN
   {cc \in T.r[L[x + 1]] : cc >= c} = {cc \in want : cc >= c}
-WordKernelFamily == {"code", "make_table", "parity64", "masks", "swap_bits", "spread_shrink", "lesser_lsb", "word_to_str"}
+WordKernelFamily == {"code", "make_table", "parity64", "masks", "swap_bits", "spread_shrink", "lesser_lsb", "word_to_str", "mzp_copy"}
 \* m4ri_word_to_str: '1' (49) / ' ' (32) per bit from bit 0 on, with colon = 1 a ':' (58) BEFORE every fourth bit but the first
 RECURSIVE WordStr(_, _, _)
 WordStr(bits, colon, i) ==
@@ -200,6 +204,11 @@ WordKernelOK(ev) ==
          /\ BitsAt(p.L_back) = low                       \* mutually inverse
     [] op = "lesser_lsb" -> ev.ret = LesserLSB(BitsAt(p.L_a), BitsAt(p.L_b))
     \* the text, its terminator inside the documented buffer size, nothing written behind the buffer
+    \* mzp_copy: the first Len(Q) entries are Q's, a longer supplied target keeps its tail; mzp_set_ui gives the identity
+    [] op = "mzp_copy" -> /\ ev.die = 0 /\ "R" \in DOMAIN p /\ p.same = 1
+                          /\ Len(p.R) = (IF p.lp < 0 THEN Len(p.Q) ELSE p.lp)
+                          /\ \A i \in 1 .. Len(p.R) : p.R[i] = (IF i <= Len(p.Q) THEN p.Q[i] ELSE 100000 + i - 1)
+                          /\ \A i \in 1 .. Len(p.I) : p.I[i] = i - 1
     [] op = "word_to_str" -> p.guard = 1 /\ p.terminated = 1 /\ p.s = WordStr(BitsAt(p.L_w), p.colon, 0)
 
 \* file I/O (C18)
